@@ -2,7 +2,6 @@
 //! specification (payload layouts, chaining rules, proof). Primitives: ed25519-dalek and p256.
 use crate::wire::*;
 use ed25519_dalek::Signer as _;
-use p256::ecdsa::signature::Signer as _;
 use p256::ecdsa::signature::Verifier as _;
 use serde::{Deserialize, Serialize};
 
@@ -374,4 +373,45 @@ impl RefSigner {
     pub fn bytes(&self) -> Vec<u8> {
         self.token.encode()
     }
+}
+
+/// normalised view without any signature verification (keys must parse)
+pub fn view_unverified(t: &WToken) -> Result<TokenView, String> {
+    let mut blocks = vec![];
+    for blk in t.all_blocks() {
+        let next = RKey::parse(&blk.next_key)?;
+        let external = match &blk.external {
+            None => None,
+            Some(e) => {
+                let k = RKey::parse(&e.public_key)?;
+                Some((k.algorithm(), k.bytes(), e.signature.clone()))
+            }
+        };
+        blocks.push(SignedBlockView {
+            payload: blk.block.clone(),
+            next_key_alg: next.algorithm(),
+            next_key: next.bytes(),
+            signature: blk.signature.clone(),
+            external,
+            version: blk.version_or_zero(),
+        });
+    }
+    let proof = match &t.proof {
+        WProof::Secret(s) => ProofView::Secret(s.clone()),
+        WProof::Seal(s) => ProofView::Seal(s.clone()),
+        WProof::Missing => return Err("missing proof".into()),
+    };
+    Ok(TokenView { blocks, proof })
+}
+
+pub fn rkey_of(pk: &biscuit_auth::PublicKey) -> RKey {
+    let alg = match pk {
+        biscuit_auth::PublicKey::Ed25519(_) => ALG_ED25519,
+        biscuit_auth::PublicKey::P256(_) => ALG_P256,
+    };
+    RKey::parse(&WKey {
+        algorithm: alg,
+        key: pk.to_bytes(),
+    })
+    .expect("library public key parses")
 }
